@@ -8,6 +8,7 @@ import (
 	"time"
 
 	"github.com/Trendyol/go-dcp/couchbase"
+	"github.com/Trendyol/go-dcp/stream"
 
 	"verifharness/gal"
 )
@@ -17,11 +18,11 @@ import (
 // the real Dcp with 1..4 vBuckets; used by C11 (the stream is closed, then reopened once, the client keeps running),
 // C13 (Close() returns) and C18 (the gate itself: which versions close serially).
 type legacyArg struct {
-	Kind  string // "rebalance" | "close"
-	NumVb int
-	Ver   []int // server version (major, minor, patch, build); empty = 5.4.9-9
-	NoEnd bool  // the fake client sends no end notification for a closed stream: a serial close then waits forever at the second stream
-	Cycles int  // kind rebalance: this many close / reopen cycles (default 1)
+	Kind   string // "rebalance" | "close"
+	NumVb  int
+	Ver    []int // server version (major, minor, patch, build); empty = 5.4.9-9
+	NoEnd  bool  // the fake client sends no end notification for a closed stream: a serial close then waits forever at the second stream
+	Cycles int   // kind rebalance: this many close / reopen cycles (default 1)
 }
 
 type legacyRes struct {
@@ -239,4 +240,141 @@ func runSerialGate(c *Ctx) {
 	}
 	c.Emit("serial", "NewStream's serial-closing gate read off the real close vs Version.serial_close", []string{"Base.Bytes", "Model.Version", "Corr.CorrC18"},
 		"(Z * Z * Z * Z) * bool", "chk_serial", cs, rs, 200)
+}
+
+// ---- the end-of-session signalling around a rebalance, step by step, against Model/SerialClose.v ----
+// The real stream on a server older than 5.5.0 with the fake client that answers every close with the end of that stream;
+// its signalling state (hook stream.VerifSignalState) is read at three points of one rebalance cycle: after the close
+// sweep (held in AfterStreamStop, before close() decides about "finished by close"), after Rebalance() has returned (the
+// reopen timer armed), after the reopen. The wait() goroutines run freely: compared are the quantities they cannot
+// change -- signals posted (waiting or taken), active count, flags of the sweep -- and whether the client was stopped.
+type sigArg struct {
+	NumVb int
+}
+
+type sigPoint struct {
+	Active      int32
+	Ending      bool
+	Queue       int
+	PostedEnd   int // waiting in the channel or taken (flag set)
+	PostedClose int
+	Stopped     bool
+}
+
+type sigRes struct {
+	Points []sigPoint
+	Err    string
+}
+
+func init() {
+	Children["legacysig"] = func(raw json.RawMessage) {
+		var a sigArg
+		must(json.Unmarshal(raw, &a))
+		res := sigRes{}
+		defer func() {
+			b, _ := json.Marshal(res)
+			fmt.Println("RESULT " + string(b))
+		}()
+		d := NewSDriverOpt(SCfg{Colls: map[uint32]string{}}, map[uint16]SDoc{}, true)
+		d.Client.EndOnClose = true
+		d.cfg.Dcp.Group.Membership.RebalanceDelay = 250 * time.Millisecond
+		sv := &SServer{High: map[uint16]uint64{}, UUID: map[uint16]uint64{}}
+		for vb := 0; vb < a.NumVb; vb++ {
+			sv.High[uint16(vb)] = 5
+			sv.UUID[uint16(vb)] = 70 + uint64(vb)
+		}
+		d.Disc.Set(0, uint16(a.NumVb-1))
+		d.setServer(sv)
+		d.Stream.Open()
+		stopped := func() bool {
+			select {
+			case <-d.stopCh:
+				return true
+			default:
+				return false
+			}
+		}
+		point := func() {
+			v := stream.VerifSignalState(d.Stream)
+			p := sigPoint{Active: v.Active, Ending: v.Ending, Queue: v.Queue, PostedEnd: v.SigEnd, PostedClose: v.SigClose, Stopped: stopped()}
+			if v.FinEnd {
+				p.PostedEnd++
+			}
+			if v.FinClose {
+				p.PostedClose++
+			}
+			res.Points = append(res.Points, p)
+		}
+		d.Hand.SetHold("AfterStreamStop", true)
+		done := make(chan struct{})
+		go func() { d.Stream.Rebalance(); close(done) }()
+		select {
+		case <-d.Hand.Held:
+		case <-time.After(4 * time.Second):
+			res.Err = "the close half did not reach AfterStreamStop within 4 s"
+			return
+		}
+		time.Sleep(20 * time.Millisecond) // a wait() goroutine that has something to take takes it
+		point()
+		d.Hand.SetHold("AfterStreamStop", false)
+		d.Hand.Resume()
+		select {
+		case <-done:
+		case <-time.After(4 * time.Second):
+			res.Err = "Rebalance() did not return within 4 s"
+			return
+		}
+		time.Sleep(20 * time.Millisecond)
+		point()
+		deadline := time.Now().Add(4 * time.Second)
+		for time.Now().Before(deadline) && !(d.Stream.IsOpen() && !stream.VerifSignalState(d.Stream).Balancing) {
+			time.Sleep(5 * time.Millisecond)
+		}
+		time.Sleep(50 * time.Millisecond)
+		point()
+	}
+}
+
+func runLegacySignals(c *Ctx) {
+	ns := []int{1, 2, 3, 5}
+	out := make([]ChildResult, len(ns))
+	Parallel(len(ns), 4, func(i int) { out[i] = RunChild("legacysig", sigArg{NumVb: ns[i]}, 40*time.Second) })
+	var cs []gal.Term
+	var rs []string
+	for i, n := range ns {
+		rep := map[string]interface{}{"how": "vh child legacysig", "vbuckets": n, "server": "5.4.9-9"}
+		c.Count("legacy-signals")
+		var res *sigRes
+		for _, l := range out[i].Lines {
+			if strings.HasPrefix(l, "RESULT ") {
+				res = &sigRes{}
+				_ = json.Unmarshal([]byte(l[7:]), res)
+			}
+		}
+		if res == nil {
+			c.Violate("legacy-server-rebalance", fmt.Sprintf("server 5.4.9, %d vBuckets, one rebalance cycle step by step: the process died (exit %d) %s", n, out[i].ExitCode, out[i].Fatal), rep)
+			continue
+		}
+		if res.Err != "" || len(res.Points) != 3 {
+			c.Note("legacysig %d not driven: %s", n, res.Err)
+			continue
+		}
+		rep["observed"] = res.Points
+		c.Eval(fmt.Sprint("legacy signals ", n), true)
+		// monitors
+		if res.Points[0].PostedEnd > 0 {
+			c.Violate("legacy-server-rebalance-stops-client", fmt.Sprintf("server 5.4.9, %d vBuckets: the ends that answered the close sweep of a rebalance posted \"finished by end events\" (%d): together with the \"finished by close\" of close() one signal too many, the wait() of the reopened stream stops the client", n, res.Points[0].PostedEnd), rep)
+		}
+		if res.Points[2].Stopped {
+			c.Violate("legacy-server-rebalance-stops-client", fmt.Sprintf("server 5.4.9, %d vBuckets: the client was stopped by the rebalance cycle", n), rep)
+		}
+		var pts []gal.Term
+		for _, p := range res.Points {
+			pts = append(pts, gal.Tuple(gal.Nat(int(p.Active)), gal.Bool(p.Ending), gal.Nat(p.PostedEnd), gal.Nat(p.PostedClose), gal.Bool(p.Stopped)))
+		}
+		cs = append(cs, gal.Tuple(gal.Nat(n), gal.List(pts)))
+		rs = append(rs, J(rep))
+	}
+	c.Emit("signals", "signalling state of the real stream at three points of a rebalance cycle (server 5.4.9) vs SerialClose.sc_run", []string{"Model.SerialClose", "Corr.CorrC11"},
+		"nat * list (nat * bool * nat * nat * bool)", "chk_signals", cs, rs, 50)
 }
